@@ -673,11 +673,13 @@ func (obj *SparseIntMatrix) JointIterator(b ConstMatrix) MatrixJointIterator {
 }
 func (obj *SparseIntMatrix) ITERATOR() *SparseIntMatrixIterator {
   r := SparseIntMatrixIterator{*obj.values.ITERATOR(), obj}
+  r.skip()
   return &r
 }
 func (obj *SparseIntMatrix) ITERATOR_FROM(i, j int) *SparseIntMatrixIterator {
   k := obj.index(i, j)
   r := SparseIntMatrixIterator{*obj.values.ITERATOR_FROM(k), obj}
+  r.skip()
   return &r
 }
 func (obj *SparseIntMatrix) JOINT_ITERATOR(b ConstMatrix) *SparseIntMatrixJointIterator {
@@ -698,6 +700,21 @@ type SparseIntMatrixIterator struct {
 }
 func (obj *SparseIntMatrixIterator) Index() (int, int) {
   return obj.m.ij(obj.SparseIntVectorIterator.Index())
+}
+func (obj *SparseIntMatrixIterator) Next() {
+  obj.SparseIntVectorIterator.Next()
+  obj.skip()
+}
+// skip elements of the underlying storage that are not
+// part of this matrix (i.e. if the matrix is a slice)
+func (obj *SparseIntMatrixIterator) skip() {
+  for obj.Ok() {
+    i, j := obj.Index()
+    if i >= 0 && i < obj.m.rows && j >= 0 && j < obj.m.cols {
+      break
+    }
+    obj.SparseIntVectorIterator.Next()
+  }
 }
 func (obj *SparseIntMatrixIterator) Clone() *SparseIntMatrixIterator {
   return &SparseIntMatrixIterator{*obj.SparseIntVectorIterator.Clone(), obj.m}
